@@ -204,7 +204,9 @@ func (w *World) LogHash() uint64 { return w.logHash }
 func (w *World) Violate(oracle, sig, detail string) {
 	w.Violations = append(w.Violations, Violation{Oracle: oracle, Signature: sig, Detail: detail,
 		Step: w.S.Steps, SimTime: w.Now().String()})
-	w.Logf("VIOLATION[%s] %s: %s", oracle, sig, detail)
+	// the detail may hold a goroutine stack (addresses, goroutine numbers): it stays out of the
+	// event log, whose hash must be a function of the seed alone
+	w.Logf("VIOLATION[%s] %s: %s", oracle, sig, firstLine(detail))
 	w.stop = true
 }
 
